@@ -1072,6 +1072,25 @@ class Run:
                     R.bucket('selection:>=2-frames')
                 self.ok(exc is None and got == want, tag, step=s, want=want, got=None if exc else got,
                         exc=repr(exc)[:160], n=n, sel=op.get('sl', op.get('idx')))
+                # a selection is a cadence of its own, holding its frames like a plain list of its own: list operations on it work,
+                # and neither it nor its parent is reached by what is done to a slice of it (plain cadences: no label book involved)
+                if exc is None and got == want and len(want) >= 2 and not m.ordered and isinstance(res, stg.Cadence) and s % 2 == 0:
+                    R.bucket('selection-used-as-a-cadence:' + ('slice' if name == 'getslice' else 'index-array'))
+                    other = objs[want[-1]]
+                    try:
+                        sub = res[0:1]
+                        sub[0] = other
+                        after_res = self.res_items(res)
+                        self.ok(after_res == want, 'selection:slice-of-selection-shares-storage', step=s, want=want, got=after_res, how=tag)
+                        res.append(other)
+                        self.ok(self.res_items(res) == want + [want[-1]], 'selection:append-to-selection', step=s, how=tag)
+                        popped = res.pop()
+                        self.ok(popped is other and self.res_items(res) == want, 'selection:pop-from-selection', step=s, how=tag)
+                        res.insert(0, other)
+                        del res[0]
+                        self.ok(self.res_items(res) == want, 'selection:insert-delete-on-selection', step=s, how=tag)
+                    except Exception as e2:  # noqa
+                        self.ok(False, 'selection:list-operation-on-selection-raises', step=s, how=tag, exc=repr(e2)[:160])
             self.judge(name, None, unchanged, None, s)
         elif name == 'by_label':
             want = m.by_label(op['label'])
@@ -1135,6 +1154,7 @@ def required(tier):
     b = {'kind:plain': 1000, 'kind:ordered': 1000, 'compared:len>=2': 10000, 'aggregate:members-with-different-tchans': 10000}
     for op in MUT_OPS + SEL_OPS + ORD_OPS:
         b['op:' + op] = 80
+    b.update({'selection-used-as-a-cadence:slice': 40, 'selection-used-as-a-cadence:index-array': 40})
     for op in ('insert', 'setitem', 'delitem', 'pop', 'getint'):
         for ic in IDX_CLASSES:
             b[f'idx:{op}:{ic}'] = 60
